@@ -309,6 +309,17 @@ def rule_r4(ctx) -> List[R.Inst]:
 
 
 # --------------------------------------------------------------------------- R5
+def M_cols(ctx, cv, tgt: ast.Attribute) -> List[str]:
+    """declared columns of the target slot a cast is assigned to"""
+    M = ctx.M
+    k = cv.ty.kind(tgt.value)
+    if k[0] == "chart" and k[1] in M.classes:
+        slots = M.map_slots(k[1])
+        if tgt.attr in slots:
+            return M.list_columns(slots[tgt.attr])
+    return []
+
+
 def rule_r5(ctx) -> List[R.Inst]:
     insts = []
     for cv in convs(ctx):
@@ -333,7 +344,14 @@ def rule_r5(ctx) -> List[R.Inst]:
         for w in writes:
             good = isinstance(w, ast.AugAssign) and isinstance(w.op, ast.Add) and isinstance(w.value, ast.Name) \
                 and w.value.id in params
-            if good:
+            late_casts = [c for c, tgt, st in cv.casts if tgt is not None and st.lineno > w.lineno and
+                          any(f in ("column",) for f in (M_cols(ctx, cv, tgt)))]
+            if good and late_casts and isinstance(w.target, ast.Attribute) and "stack()" in unparse(w.target):
+                c0 = late_casts[0]
+                insts.append(R.viol("C08.R5", key, cv.file, w.lineno,
+                                    f"the column shift is applied before '{unparse(c0)[:60]}…' is cast into the target: the lists assigned "
+                                    f"afterwards keep their unshifted columns", construct=f"{key}: shift precedes a cast of a list with columns"))
+            elif good:
                 insts.append(R.ok("C08.R5", key, cv.file, w.lineno, idiom=f"column += {w.value.id} (explicit shift argument)"))
             else:
                 insts.append(R.viol("C08.R5", key, cv.file, w.lineno,
